@@ -163,7 +163,10 @@ func streamPositions(ctx *Ctx) *Result {
 	// operands of the failing instruction take one, two or three bytes): the reported
 	// location must be the end of that token
 	parallel(ctx.Pool, ctx.Seed+7, ctx.N(60), func(i int, r *rand.Rand, d *Driver) {
-		k := []int{0, 5, 100, 118, 119, 120, 121, 122, 150, 300, 1200}[r.Intn(11)]
+		k := []int{0, 5, 100, 118, 119, 120, 121, 122, 150, 300}[r.Intn(10)]
+		if r.Intn(25) == 0 {
+			k = 1200 // three-byte operands; the model takes seconds on these
+		}
 		var b strings.Builder
 		b.WriteString("def blk {\n")
 		for j := 0; j < k; j++ {
